@@ -152,6 +152,7 @@ class KeyedRandom(object):
         self.seed = seed
         self.counters = {}
         self.force = None
+        self.range_force = None      # "lo" / "hi": every draw from a numeric range returns its smallest / largest outcome
         self.calls = 0
 
     def _key(self):
@@ -177,7 +178,18 @@ class KeyedRandom(object):
 
     def randrange(self, *a):
         r = self._key()
+        if self.range_force is not None and len(a) == 2:
+            return a[0] if self.range_force == "lo" else a[1] - 1
         return r.randrange(*a)
+
+    def randint(self, a, b):
+        r = self._key()
+        if self.range_force is not None:
+            return a if self.range_force == "lo" else b
+        return r.randint(a, b)
+
+    def _forced_range(self, *a):
+        return None
 
     def __getattr__(self, name):
         return getattr(_random, name)
@@ -210,7 +222,8 @@ def dump_tables(conn, tables):
 
 
 def open_reader(path):
-    c = _sqlite3.connect("file:%s?mode=ro" % path, uri=True, timeout=0.05)
+    from urllib.parse import quote
+    c = _sqlite3.connect("file:%s?mode=ro" % quote(path), uri=True, timeout=0.05)      # (the path may hold #, ?, %)
     return c
 
 
